@@ -23,7 +23,7 @@ CORRESPONDENCE_ONLY = ("paths reported as stream:*:model:unsupported_* in input_
                        "the implementation's output only")
 EXPLANATION = ("layer theorems (entropy coder, transforms, quantizers, varints) + executable specification; the composed "
                "end-to-end theorem covers the sequential paths as far as DracoProps.C01 states")
-TIMEOUT = 3000
+TIMEOUT = 900
 CHECKS = {"rt", "valid", "consumed", "corr"}
 
 
